@@ -58,8 +58,13 @@ LEVEL_NOTE = "In-process transports (HTTP through Falcon's test client); trusts 
 _counter = itertools.count()
 
 SOCKET_CFGS: list[dict[str, Any]] = [{"t": "pipe"}, {"t": "unix"}, {"t": "tcp"}, {"t": "shm", "shm_size": 1 << 18}]
+# "cold": the worker keeps no call-state cache, so every continuation / exchange / cancel re-opens the call token
+# (what a load-balanced worker that never saw the stream's /init does)
 HTTP_CFGS: list[dict[str, Any]] = [
-    {"t": "http", "cap": cap, "comp": comp} for cap in (None, 1, 700, 1 << 20) for comp in ("off", "zstd", "gzip")
+    {"t": "http", "cap": cap, "comp": comp, **({"app_kw": {"call_state_cache_entries": 0}} if cold else {})}
+    for cold in (False, True)
+    for cap in (None, 1, 700, 1 << 20)
+    for comp in ("off", "zstd", "gzip")
 ]
 CFGS = SOCKET_CFGS + HTTP_CFGS
 
@@ -307,7 +312,7 @@ def run_case(case: dict[str, Any]) -> Outcome:
         f"t={cfg['t']}",
         f"level={case['level']}",
         "fmt_cap=small" if case["fmt_cap"] else "fmt_cap=default",
-        *(["cfg=" + (f"cap={cfg['cap']}/{cfg['comp']}")] if http else []),
+        *(["cfg=" + (f"cap={cfg['cap']}/{cfg['comp']}"), "cache=" + ("cold" if cfg.get("app_kw") else "warm")] if http else []),
         *sorted(
             {
                 "msg=empty" if s == "" else "msg=10k" if len(s) >= 5000 else "msg=over500" if len(s) > 500 else "msg=multiline" if "\n" in s else "msg=nonascii" if any(ord(c) > 127 for c in s) else "msg=plain"
